@@ -341,7 +341,66 @@ func runOpSem(c *Ctx, r *Reporter) {
 			}
 			return ""
 		}}
-		cases := constCases(sf, func(v ssa.Value) bool { return loadsField(v, "Op") })
+		isOp := func(v ssa.Value) bool {
+			if loadsField(v, "Op") {
+				return true
+			}
+			prm, ok := v.(*ssa.Parameter)
+			return ok && namedOf(prm.Type()) != nil && namedOf(prm.Type()).Obj().Name() == "Operator"
+		}
+		cases := constCases(sf, isOp)
+		if len(cases) == 0 {
+			// the application of the operator was moved into a helper: its value parameters are, in order, the left and
+			// the right operand, provided the call site hands it two different values (== and != are symmetric, so the
+			// order itself is immaterial here)
+			for _, h := range regionFns(sf, 2, anchoredOps) {
+				if h == sf {
+					continue
+				}
+				hc := constCases(h, isOp)
+				if len(hc) == 0 {
+					continue
+				}
+				var vals []*ssa.Parameter
+				for _, prm := range h.Params {
+					if isNamed(prm.Type(), evalPkg.PkgPath, "value") {
+						vals = append(vals, prm)
+					}
+				}
+				if len(vals) != 2 {
+					continue
+				}
+				distinct := true
+				for _, f := range regionFns(sf, 2, anchoredOps) {
+					for _, call := range callsTo(f, h) {
+						var args []ssa.Value
+						for i, prm := range h.Params {
+							if (prm == vals[0] || prm == vals[1]) && i < len(call.Common().Args) {
+								args = append(args, call.Common().Args[i])
+							}
+						}
+						if len(args) != 2 || args[0] == args[1] {
+							distinct = false
+						}
+					}
+				}
+				if !distinct {
+					continue
+				}
+				cases = hc
+				inner := tc.leaf
+				tc.leaf = func(v ssa.Value) string {
+					switch v {
+					case ssa.Value(vals[0]):
+						return "L"
+					case ssa.Value(vals[1]):
+						return "R"
+					}
+					return inner(v)
+				}
+				break
+			}
+		}
 		for _, k := range sortedKeys(cases) {
 			sym := symOf[k]
 			want, ok := opSemExpected("all", sym)
@@ -1694,8 +1753,61 @@ func runLoopVarInit(c *Ctx, r *Reporter) {
 		}
 		return false
 	}
+	isLoopVarSet := func(call *ssa.Call) bool {
+		if call.Call.StaticCallee() == nil || call.Call.StaticCallee().Name() != "set" || len(call.Call.Args) < 3 {
+			return false
+		}
+		if rn := call.Call.StaticCallee().Signature.Recv(); rn == nil || namedOf(rn.Type()) == nil || namedOf(rn.Type()).Obj().Name() != "scope" {
+			return false
+		}
+		name := call.Call.Args[1]
+		if mentionsField(name, "LoopVar", 5) {
+			return true
+		}
+		// loopVar.Name with loopVar a *parser.Var parameter
+		if u, ok := name.(*ssa.UnOp); ok {
+			if fa, ok := u.X.(*ssa.FieldAddr); ok {
+				if prm, ok := fa.X.(*ssa.Parameter); ok && strings.Contains(strings.ToLower(prm.Name()), "loopvar") {
+					return true
+				}
+			}
+		}
+		return false
+	}
+	// A helper that only creates the loop variable (it evaluates no operand itself) stands for the creation at each of
+	// its call sites.
+	setters := map[*ssa.Function]bool{}
+	fns := ssaFuncsOf(p, pkg)
+	for round := 0; round < 3; round++ {
+		for _, fn := range fns {
+			if setters[fn] {
+				continue
+			}
+			hasEval, hasSet := false, false
+			for _, b := range fn.Blocks {
+				for _, ins := range b.Instrs {
+					if call, ok := ins.(*ssa.Call); ok {
+						if isRangeEval(call) {
+							hasEval = true
+						}
+						if isLoopVarSet(call) || (call.Call.StaticCallee() != nil && setters[call.Call.StaticCallee()]) {
+							hasSet = true
+						}
+					}
+				}
+			}
+			if hasSet && !hasEval {
+				setters[fn] = true
+			}
+		}
+	}
 	n := 0
-	for _, fn := range ssaFuncsOf(p, pkg) {
+	for _, fn := range fns {
+		if setters[fn] {
+			n++
+			r.Ok(fmt.Sprintf("%s#creates-loopvar-only", ssaQName(fn)), p.Rel(fn.Pos()), "creates the loop variable and evaluates no operand: its call sites are checked")
+			continue
+		}
 		var evals []*ssa.Call
 		for _, b := range fn.Blocks {
 			for _, ins := range b.Instrs {
@@ -1708,32 +1820,14 @@ func runLoopVarInit(c *Ctx, r *Reporter) {
 		for _, b := range fn.Blocks {
 			for _, ins := range b.Instrs {
 				call, ok := ins.(*ssa.Call)
-				if !ok || call.Call.StaticCallee() == nil || call.Call.StaticCallee().Name() != "set" || len(call.Call.Args) < 3 {
-					continue
-				}
-				if rn := call.Call.StaticCallee().Signature.Recv(); rn == nil || namedOf(rn.Type()) == nil || namedOf(rn.Type()).Obj().Name() != "scope" {
-					continue
-				}
-				name := call.Call.Args[1]
-				isLoopVar := mentionsField(name, "LoopVar", 5)
-				if !isLoopVar {
-					// loopVar.Name with loopVar a *parser.Var parameter
-					if u, ok := name.(*ssa.UnOp); ok {
-						if fa, ok := u.X.(*ssa.FieldAddr); ok {
-							if prm, ok := fa.X.(*ssa.Parameter); ok && strings.Contains(strings.ToLower(prm.Name()), "loopvar") {
-								isLoopVar = true
-							}
-						}
-					}
-				}
-				if !isLoopVar {
+				if !ok || !(isLoopVarSet(call) || (call.Call.StaticCallee() != nil && setters[call.Call.StaticCallee()])) {
 					continue
 				}
 				n++
 				k++
 				before, after := false, false
 				for _, e := range evals {
-					if instrDominates(e, call) {
+					if instrDominates(e, call) || (call.Block() != e.Block() && reachesBlock(e.Block(), call.Block())) {
 						before = true
 					}
 					if instrDominates(call, e) || (call.Block() != e.Block() && reachesBlock(call.Block(), e.Block()) && !reachesBlock(e.Block(), call.Block())) {
